@@ -253,6 +253,23 @@ func replay(u Universe, path []Call) Inst {
 	return x
 }
 
+// the text of a load call: S = "bad" turns the well-formed text into one that fails HALF WAY (a last element / member of
+// the wrong type), so that the tours also explore what a failed load leaves behind and what follows it
+func loadText(c Call, good []byte) []byte {
+	if c.S != "bad" || len(good) < 2 {
+		return good
+	}
+	body, closer := good[:len(good)-1], good[len(good)-1]
+	sep := ","
+	if len(body) == 1 {
+		sep = ""
+	}
+	if closer == '}' {
+		return []byte(string(body) + sep + `"zz":"oops"}`)
+	}
+	return []byte(string(body) + sep + `"oops"]`)
+}
+
 func noteDistinct(kind string, c Call) {
 	// distinct (kind, op, argument class) combinations executed; argument class = exact small args
 	distinct[kind+"|"+c.key()] = struct{}{}
